@@ -12,6 +12,8 @@ package ebnf
 // Also C09 for the package-level parser: it is frozen and used repeatedly.
 
 import (
+	"reflect"
+
 	"github.com/alecthomas/participle/v2"
 	"github.com/alecthomas/participle/v2/lexer"
 )
@@ -220,7 +222,7 @@ func vhCountOps(x *Expression, neg, pos, negLA, star, plus, quest, bang *int) {
 func vhGrammarRoundTrip(text string, rootName string) *EBNF {
 	ast, err := ParseString(text)
 	vAssert(err == nil, "C14: Parser.String() is not accepted by the ebnf package")
-	vAssert(len(ast.Productions) > 0 && ast.Productions[0].Production == rootName, "C14: the root production does not come first")
+	vAssert(len(ast.Productions) > 0 && (rootName == "" || ast.Productions[0].Production == rootName), "C14: the root production does not come first")
 	vhDefinedOnce(ast)
 	for _, p := range ast.Productions {
 		vhRefsDefined(ast, p.Expression)
@@ -294,4 +296,121 @@ func VH_C09_EBNFParser() {
 func VH_C14_Canary() {
 	e := vhExpr(0)
 	vAssert(len(e.Alternatives) == 1, "canary: must fail")
+}
+
+// ---------- generated grammars (zz_verif_ggcore.go, shared with the root package) ----------
+
+const vhGenEBNF = 48 // @tier quick=48 thorough=400
+
+var vhGenLexDef = lexer.MustSimple([]lexer.SimpleRule{{Name: "A", Pattern: "a"}, {Name: "B", Pattern: "b"}, {Name: "C", Pattern: "c"}, {Name: "Ws", Pattern: " "}})
+
+type vhOps struct{ neg, pos, negLA, star, plus, quest, bang, lits, toks, refs int }
+
+func vhCountRx(e *rx, p *ggProd, seen map[reflect.Type]bool, c *vhOps) {
+	switch e.kind {
+	case kLit, kTLit:
+		c.lits++
+	case kRef:
+		c.toks++
+	case kNeg:
+		c.neg++
+	case kLA:
+		if e.neg {
+			c.negLA++
+		} else {
+			c.pos++
+		}
+	case kGrp:
+		switch e.mode {
+		case mOpt:
+			c.quest++
+		case mStar:
+			c.star++
+		case mPlus:
+			c.plus++
+		case mNonEmpty:
+			c.bang++
+		}
+	case kSub:
+		c.refs++
+		vhCountProd(p.subs[e.field], seen, c)
+	}
+	for _, k := range e.kids {
+		vhCountRx(k, p, seen, c)
+	}
+}
+
+func vhCountProd(p *ggProd, seen map[reflect.Type]bool, c *vhOps) {
+	if seen[p.rt] {
+		return
+	}
+	seen[p.rt] = true
+	vhCountRx(p.expr, p, seen, c)
+}
+
+func vhCountEBNF(x *Expression, c *vhOps) {
+	for _, s := range x.Alternatives {
+		for _, t := range s.Terms {
+			if t.Negation {
+				c.neg++
+			}
+			switch t.Repetition {
+			case "*":
+				c.star++
+			case "+":
+				c.plus++
+			case "?":
+				c.quest++
+			case "!":
+				c.bang++
+			}
+			switch {
+			case t.Name != "":
+				c.refs++
+			case t.Literal != "":
+				c.lits++
+			case t.Token != "":
+				c.toks++
+			}
+			if t.Group != nil {
+				switch t.Group.Lookahead {
+				case LookaheadAssertionPositive:
+					c.pos++
+				case LookaheadAssertionNegative:
+					c.negLA++
+				}
+				vhCountEBNF(t.Group.Expr, c)
+			}
+		}
+	}
+}
+
+// VH_C14_Generated: Parser.String() of generated grammar number idx (every
+// operator, nesting, sub-productions, literals needing escapes, anonymous
+// struct types) parses, defines everything once, survives the second round
+// trip and contains every operator, literal and reference of the grammar.
+func VH_C14_Generated() {
+	idx := vChoose("grammar", vhGenEBNF)
+	root := vhGeneratedProd(idx, false, false, ggEscVals)
+	member := reflect.New(root.rt).Elem().Interface()
+	p, err := participle.Build[any](participle.Lexer(vhGenLexDef), participle.Elide("Ws"), participle.Union[any](member))
+	if err != nil {
+		vReach("rejected")
+		return
+	}
+	text := p.String()
+	ast := vhGrammarRoundTrip(text, "")
+	var want, got vhOps
+	vhCountProd(root, map[reflect.Type]bool{}, &want)
+	want.refs++ // the union's reference to its member
+	for _, pr := range ast.Productions {
+		vhCountEBNF(pr.Expression, &got)
+	}
+	vAssert(got.neg == want.neg, "C14: a ~ operator of the grammar is missing from (or invented in) the EBNF")
+	vAssert(got.pos == want.pos && got.negLA == want.negLA, "C14: a lookahead group of the grammar is missing from the EBNF")
+	vAssert(got.star == want.star && got.plus == want.plus && got.quest == want.quest && got.bang == want.bang, "C14: a modifier of the grammar is missing from the EBNF")
+	vAssert(got.lits == want.lits && got.toks == want.toks, "C14: a literal or token reference of the grammar is missing from the EBNF")
+	vAssert(got.refs == want.refs, "C14: a production reference of the grammar is missing from the EBNF")
+	vObserve("ebnf", text)
+	vReach("grammar")
 }
